@@ -117,7 +117,7 @@ fn eval_gen(segs: &[Seg], chunks: &[(u8, u32)], declare: u8, out: &mut String) {
             fresh.update(&all);
             let f = txt(fresh.finalize());
             if e != f {
-                let _ = write!(out, ";EASY-MISMATCH hash_buf={} generator={}", e, f);
+                let _ = write!(out, ";#EASY-MISMATCH# hash_buf={} generator={}", e, f);
             }
             let mut rd: &[u8] = &all;
             let s = match ssdeep::hash_stream(&mut rd) {
@@ -125,7 +125,7 @@ fn eval_gen(segs: &[Seg], chunks: &[(u8, u32)], declare: u8, out: &mut String) {
                 Err(e) => format!("!{}", e),
             };
             if s != f {
-                let _ = write!(out, ";EASY-MISMATCH hash_stream={} generator={}", s, f);
+                let _ = write!(out, ";#EASY-MISMATCH# hash_stream={} generator={}", s, f);
             }
         }
     }
@@ -226,7 +226,7 @@ fn eval_obj(h: &H, other: &H, buf_len: u16, out: &mut String) {
             && ssdeep::block_size::from_log_unchecked(h.log) == lr.block_size()
             && ssdeep::block_size::log_from_valid_unchecked(lr.block_size()) == h.log;
         if !ok {
-            let _ = write!(out, "UNCHECKED-MISMATCH(constructors);");
+            let _ = write!(out, "#UNCHECKED-MISMATCH#(constructors);");
         }
     }
 }
@@ -268,7 +268,7 @@ fn eval_cmp(a: &H, b: &H, out: &mut String) {
             Err(e) => format!("!{}", e),
         };
         if s != format!("{}", na.compare(&nb)) {
-            let _ = write!(out, "EASY-MISMATCH compare()={};", s);
+            let _ = write!(out, "#EASY-MISMATCH# compare()={};", s);
         }
     }
     #[cfg(feature = "has-unchecked")]
@@ -316,7 +316,7 @@ fn eval_cmp(a: &H, b: &H, out: &mut String) {
             ok &= FuzzyHashCompareTarget::score_cap_on_block_hash_comparison_unchecked(a.log, l1, l2) == FuzzyHashCompareTarget::score_cap_on_block_hash_comparison(a.log, l1, l2);
         }
         if !ok {
-            let _ = write!(out, "UNCHECKED-MISMATCH(compare);");
+            let _ = write!(out, "#UNCHECKED-MISMATCH#(compare);");
         }
     }
 }
@@ -325,7 +325,7 @@ fn eval_line(line: &str) -> String {
     let parsed: Result<Line, _> = serde_json::from_str(line);
     let l = match parsed {
         Ok(l) => l,
-        Err(e) => return format!("BADLINE {}", e),
+        Err(e) => return format!("#BADLINE# {}", e),
     };
     let r = catch_unwind(AssertUnwindSafe(|| {
         let mut out = String::new();
@@ -351,7 +351,7 @@ fn eval_line(line: &str) -> String {
     }));
     match r {
         Ok(s) => s,
-        Err(_) => "PANIC".to_string(),
+        Err(_) => "#PANIC#".to_string(),
     }
 }
 
